@@ -98,3 +98,24 @@ package attachment
 //@ func (*PackageProgress).parseJT808Message
 //@   ensures C15.short: old(len(p.historyData)) < 10 ==> result0 == nil && result1 != nil
 //@   ensures C15.frame: result1 == nil ==> result0 != nil && exists(i, 1, old(len(p.historyData)), old(p.historyData[i]) == 0x7e && forall(j, 1, i, old(p.historyData[j]) != 0x7e) && len(p.historyData) == old(len(p.historyData)) - (i + 1) && ptr(p.historyData) == old(ptr(p.historyData)) + i + 1)
+
+// Assumptions about dynamic types (the defaults the server is built with): the control-frame handler is the standard
+// one and chunk headers use the 62-byte (Su-biao and compatible) layout.
+//@ impl DataHandler *standardJT808DataHandle
+//@ impl StreamDataHandler *baseStreamDataHandle
+
+// C15: chunk bookkeeping. Records are created by the 0x1210 handler with both maps (see OnPackageProgressEvent).
+//@ spec recok(p *PackageProgress) bool = p.Record != nil && forallkey(k, p.Record, p.Record[k] != nil && p.Record[k].OffsetRecord != nil && p.Record[k].OffsetDataRecord != nil)
+// A chunk (offset o, length n) for a known file: the bytes are recorded under o, the pending bytes advance past the
+// chunk, and the file's byte count changes by n minus what was recorded under o before (a resent chunk adds nothing),
+// so that the count stays the total length of the recorded chunks; the stage says "complete" exactly when the count
+// equals the announced size. Every other file's record is untouched.
+//@ func (*PackageProgress).stageStreamData
+//@   requires C10.p: p != nil && recok(p)
+//@   ensures C15.recok: recok(p)
+//@   ensures C15.cur: result == nil ==> p.ExtensionFields.CurrentPackage != nil
+//@   ensures C15.count: result == nil ==> forallkey(k, p.Record, forallint(o, p.Record[k] == p.ExtensionFields.CurrentPackage && o == p.Record[k].Offset ==> has(p.Record[k].OffsetRecord, o) && p.Record[k].CurrentSize == old(p.Record[k].CurrentSize) - ite(old(has(p.Record[k].OffsetRecord, o)), uint32(old(p.Record[k].OffsetRecord[o])), uint32(0)) + uint32(p.Record[k].OffsetRecord[o])))
+//@   ensures C15.stage: result == nil ==> iff(p.ProgressStage == ProgressStageStreamDataComplete, p.ExtensionFields.CurrentPackage.CurrentSize == p.ExtensionFields.CurrentPackage.FileSize) && (p.ProgressStage == ProgressStageStreamDataComplete || p.ProgressStage == ProgressStageStreamData)
+//@   ensures C15.advance: result == nil ==> len(p.historyData) == old(len(p.historyData)) - 62 - int(old(be32(p.historyData, 58))) && ptr(p.historyData) == old(ptr(p.historyData)) + 62 + int(old(be32(p.historyData, 58)))
+//@   ensures C15.others: forallkey(k, p.Record, p.Record[k] != p.ExtensionFields.CurrentPackage || result != nil ==> p.Record[k].CurrentSize == old(p.Record[k].CurrentSize))
+//@   ensures C15.keys: forallstr(k, has(p.Record, k) == old(has(p.Record, k)) && p.Record[k] == old(p.Record[k]))
